@@ -20,3 +20,23 @@ Example C13_cycle_reported :
   topological_sort [] [mk_node 0 1 [2]; mk_node 1 2 [1]] = Cycle 1 /\
   topological_sort [] [mk_node 0 1 [1]] = Cycle 1.
 Proof. vm_compute. split; reflexivity. Qed.
+
+(* includes: the file processor's recursion (model/PcFiles.v, tied to prophyc/file_processor.py by
+   checks/filecorr.py, which C13's check runs too) never exhausts a fuel greater than the number of existing
+   files — cyclic, self- and mutually including files end in the cyclic-include diagnostic, missing ones in the
+   missing-file diagnostic. *)
+From Prophy Require Import PcFiles PcFilesFacts.
+Theorem C13_include_recursion_terminates :
+  forall fs univ fuel ps st' rs,
+    (forall p, fs p <> None -> In p univ) -> length univ < fuel ->
+    proc_mains fs fuel st0 ps = (st', rs) -> ~ In (FErr EFuel) rs.
+Proof.
+  intros fs univ fuel ps st' rs Hu Hb H.
+  exact (proc_mains_fuel_enough fs univ Hu fuel Hb ps st0 st' rs LogInv_st0 H).
+Qed.
+Print Assumptions C13_include_recursion_terminates.
+
+Example C13_include_cycle_reported :
+  let fs := fun p => match p with 0 => Some [IInc 1] | 1 => Some [IInc 2] | 2 => Some [IInc 0] | 3 => Some [IInc 3] | _ => None end in
+  snd (proc_mains fs 5 st0 [0]) = [FErr (ECyclic 0)] /\ snd (proc_mains fs 5 st0 [3]) = [FErr (ECyclic 3)].
+Proof. vm_compute. split; reflexivity. Qed.
